@@ -101,8 +101,12 @@ func initSymIntrinsics() {
 			m.reach(strArg(m, a[0]))
 			return nil
 		},
-		"And": func(m *Machine, c *frame, fn *ssa.Function, a []value) value { return tAnd(m.asTerm(a[0]), m.asTerm(a[1])) },
-		"Or":  func(m *Machine, c *frame, fn *ssa.Function, a []value) value { return tOr(m.asTerm(a[0]), m.asTerm(a[1])) },
+		"And": func(m *Machine, c *frame, fn *ssa.Function, a []value) value {
+			return tAnd(m.asTerm(a[0]), m.asTerm(a[1]))
+		},
+		"Or": func(m *Machine, c *frame, fn *ssa.Function, a []value) value {
+			return tOr(m.asTerm(a[0]), m.asTerm(a[1]))
+		},
 		"Not": func(m *Machine, c *frame, fn *ssa.Function, a []value) value { return tNot(m.asTerm(a[0])) },
 		"Implies": func(m *Machine, c *frame, fn *ssa.Function, a []value) value {
 			return tImplies(m.asTerm(a[0]), m.asTerm(a[1]))
